@@ -439,6 +439,14 @@ def split_equations_iter(model: str) -> Iterator[str]:
             # Reset the buffer to collect another equation
             buffer = []
 
+    # If a code fence is still open at this point, the rest of the script would
+    # be silently discarded. Throw an error
+    if not complete_verbatim_block:
+        raise ParserError(
+            'Failed to find the closing code fence of a verbatim block '
+            'in the following: ' + '\n'.join(buffer)
+        )
+
     # If `unmatched_parentheses` is non-zero at this point, there must have
     # been an error in the input script's syntax. Throw an error
     if unmatched_parentheses != 0:
